@@ -193,6 +193,67 @@ fn build_col(ty: &str, vs: &[&str]) -> ArrayRef {
         let nulls = if valid.iter().all(|x| *x) { None } else { Some(NullBuffer::from(valid)) };
         return Arc::new(StructArray::new(fields, children, nulls));
     }
+    for (pre, large, view, fixed) in [("llist(", true, false, 0usize), ("lview(", false, true, 0), ("fsl2(", false, false, 2)] {
+        if let Some(inner) = ty.strip_prefix(pre).and_then(|x| x.strip_suffix(')')) {
+            // same value grammar as list(): `L` + items joined by `.`
+            let base = build_col(&format!("list({inner})"), vs);
+            let l = base.as_list::<i32>();
+            let f = Arc::new(Field::new("item", l.values().data_type().clone(), true));
+            let lens: Vec<usize> = (0..l.len()).map(|i| l.value_length(i) as usize).collect();
+            return if large {
+                Arc::new(LargeListArray::new(f, OffsetBuffer::<i64>::from_lengths(lens), l.values().clone(), l.nulls().cloned()))
+            } else if view {
+                let offs: Vec<i32> = l.offsets()[..l.len()].to_vec();
+                Arc::new(ListViewArray::new(f, offs.into(), lens.iter().map(|x| *x as i32).collect::<Vec<_>>().into(), l.values().clone(), l.nulls().cloned()))
+            } else {
+                // a null FixedSizeList slot still owns `fixed` child slots
+                let mut child_vals: Vec<String> = vec![];
+                for v in vs {
+                    if *v == "N" {
+                        child_vals.extend(std::iter::repeat_n("N".to_string(), fixed));
+                    } else {
+                        let items: Vec<&str> = v[1..].split('.').collect();
+                        assert_eq!(items.len(), fixed);
+                        child_vals.extend(items.iter().map(|x| x.to_string()));
+                    }
+                }
+                let child = build_col(inner, &child_vals.iter().map(|x| x.as_str()).collect::<Vec<_>>());
+                Arc::new(FixedSizeListArray::new(Arc::new(Field::new("item", child.data_type().clone(), true)), fixed as i32, child, l.nulls().cloned()))
+            };
+        }
+    }
+    if let Some(rest) = ty.strip_prefix("dict") {
+        // dict<key>: Dictionary(key, Utf8) built value by value (duplicates share an entry)
+        macro_rules! dict {
+            ($k:ty) => {
+{
+                    let owned: Vec<Option<String>> = vs.iter().map(|v| opt(v, hexstr)).collect();
+                    Arc::new(owned.iter().map(|o| o.as_deref()).collect::<DictionaryArray<$k>>()) as ArrayRef
+                }
+            };
+        }
+        return match rest {
+            "i8" => dict!(Int8Type),
+            "i16" => dict!(Int16Type),
+            "i32" => dict!(Int32Type),
+            "i64" => dict!(Int64Type),
+            "u8" => dict!(UInt8Type),
+            "u16" => dict!(UInt16Type),
+            "u32" => dict!(UInt32Type),
+            _ => dict!(UInt64Type),
+        };
+    }
+    for (pre, w) in [("dec32(", 32), ("dec64(", 64), ("dec256(", 256)] {
+        if let Some(ps) = ty.strip_prefix(pre).and_then(|x| x.strip_suffix(')')) {
+            let (p, sc) = ps.split_once('.').unwrap();
+            let (p, sc): (u8, i8) = (p.parse().unwrap(), sc.parse().unwrap());
+            return match w {
+                32 => Arc::new(vs.iter().map(|v| opt(v, |x| x.parse::<i32>().unwrap())).collect::<Decimal32Array>().with_precision_and_scale(p, sc).unwrap()),
+                64 => Arc::new(vs.iter().map(|v| opt(v, |x| x.parse::<i64>().unwrap())).collect::<Decimal64Array>().with_precision_and_scale(p, sc).unwrap()),
+                _ => Arc::new(vs.iter().map(|v| opt(v, |x| arrow_buffer::i256::from_string(x).unwrap())).collect::<Decimal256Array>().with_precision_and_scale(p, sc).unwrap()),
+            };
+        }
+    }
     if let Some(ps) = ty.strip_prefix("dec(").and_then(|x| x.strip_suffix(')')) {
         let (p, s) = ps.split_once('.').unwrap();
         let a: Decimal128Array = vs.iter().map(|v| opt(v, |x| x.parse::<i128>().unwrap())).collect();
@@ -208,6 +269,12 @@ fn build_col(ty: &str, vs: &[&str]) -> ArrayRef {
         "u16" => prim!(UInt16Type, u16),
         "u32" => prim!(UInt32Type, u32),
         "u64" => prim!(UInt64Type, u64),
+        "null" => Arc::new(NullArray::new(vs.len())),
+        "f16" => Arc::new(vs.iter().map(|v| opt(v, |x| half::f16::from_bits(u16::from_str_radix(x, 16).unwrap()))).collect::<Float16Array>()),
+        "durs" => prim!(DurationSecondType, i64),
+        "durm" => prim!(DurationMillisecondType, i64),
+        "duru" => prim!(DurationMicrosecondType, i64),
+        "durn" => prim!(DurationNanosecondType, i64),
         "f32" => Arc::new(vs.iter().map(|v| opt(v, |x| f32::from_bits(u32::from_str_radix(x, 16).unwrap()))).collect::<Float32Array>()),
         "f64" => Arc::new(vs.iter().map(|v| opt(v, |x| f64::from_bits(u64::from_str_radix(x, 16).unwrap()))).collect::<Float64Array>()),
         "utf8" => Arc::new(vs.iter().map(|v| opt(v, hexstr)).collect::<StringArray>()),
@@ -267,7 +334,17 @@ fn batches_equal(a: &RecordBatch, b: &[RecordBatch]) -> Result<(), String> {
         if x.data_type() != y.data_type() {
             return Err(format!("column {i} type {:?} vs {:?}", x.data_type(), y.data_type()));
         }
-        if x.to_data() != y.to_data() {
+        let logical = |a: &ArrayRef| -> Result<Vec<String>, String> {
+            let f = arrow_cast::display::ArrayFormatter::try_new(a.as_ref(), &arrow_cast::display::FormatOptions::default().with_null("<NULL>")).map_err(|e| format!("{e:?}"))?;
+            (0..a.len()).map(|r| f.value(r).try_to_string().map_err(|e| format!("{e:?}"))).collect()
+        };
+        // dictionaries and list views have no canonical physical form: compare the rendered rows
+        let by_rows = matches!(x.data_type(), DataType::Dictionary(..) | DataType::ListView(_) | DataType::LargeListView(_));
+        if by_rows {
+            if logical(x)? != logical(y)? || x.logical_null_count() != y.logical_null_count() {
+                return Err(format!("column {i} ({:?}) rows differ: wrote {:?} read {:?}", x.data_type(), logical(x)?, logical(y)?).chars().take(300).collect());
+            }
+        } else if x.to_data() != y.to_data() {
             // floats: compare bit patterns via the debug rendering of the bits
             return Err(format!("column {i} differs: wrote {:?} read {:?}", x, y).chars().take(300).collect());
         }
@@ -300,6 +377,38 @@ fn run_case(line: &str, sink: &mut Sink, tags: &str) -> String {
                 Ok(back) if back == recs => {}
                 Ok(back) => oracle.push(format!("csv crate reads {}", show_records(&back))),
                 Err(e) => oracle.push(format!("csv crate error {}", e.chars().take(120).collect::<String>())),
+            }
+            hex(&out)
+        }
+        "csvq" => {
+            // like `csv`, with an explicit quote byte on both sides
+            let d: u8 = t[2].parse().unwrap();
+            let q: u8 = t[3].parse().unwrap();
+            let recs = parse_records(t[4]);
+            let k = recs[0].len();
+            let cols: Vec<ArrayRef> = (0..k).map(|c| Arc::new(StringArray::from_iter_values(recs.iter().map(|r| String::from_utf8(r[c].clone()).unwrap()))) as ArrayRef).collect();
+            let batch = RecordBatch::try_new(utf8_schema(k), cols).unwrap();
+            let mut out = Vec::new();
+            {
+                let mut w = arrow_csv::WriterBuilder::new().with_header(false).with_delimiter(d).with_quote(q).with_null(NULL_SENTINEL.to_string()).build(&mut out);
+                if w.write(&batch).is_err() {
+                    return "ERR:write".into();
+                }
+            }
+            let r = arrow_csv::ReaderBuilder::new(utf8_schema(k)).with_header(false).with_delimiter(d).with_quote(q).with_null_regex(never_null()).build(Cursor::new(out.clone()));
+            let back: Result<Vec<Vec<Vec<u8>>>, String> = r.map_err(|e| format!("{e:?}")).and_then(|r| {
+                let mut o = vec![];
+                for b in r {
+                    let b = b.map_err(|e| format!("{e:?}"))?;
+                    for i in 0..b.num_rows() {
+                        o.push((0..k).map(|c| b.column(c).as_string::<i32>().value(i).as_bytes().to_vec()).collect());
+                    }
+                }
+                Ok(o)
+            });
+            match back {
+                Ok(b) if b == recs => {}
+                other => oracle.push(format!("csvq round trip: {}", format!("{other:?}").chars().take(160).collect::<String>())),
             }
             hex(&out)
         }
@@ -405,18 +514,20 @@ fn run_case(line: &str, sink: &mut Sink, tags: &str) -> String {
         "jsonrt" => {
             let n: usize = t[4].parse().unwrap();
             let batch = make_batch(t[3], t[5], n);
-            let explicit = t[2].contains('e');
+            let explicit = t[2].contains('e'); // `E` = explicit nulls off (schemas without maps only)
             let list_mode = t[2].contains('l');
             let array_fmt = t[2].contains('a');
             let mode = if list_mode { StructMode::ListOnly } else { StructMode::ObjectOnly };
             let mut out = Vec::new();
             let b = arrow_json::WriterBuilder::new().with_explicit_nulls(explicit).with_struct_mode(mode);
+            // option `m`: the rows go through the SAME writer as two batches (second `write` call)
+            let parts: Vec<RecordBatch> = if t[2].contains('m') && n >= 2 { vec![batch.slice(0, n / 2), batch.slice(n / 2, n - n / 2)] } else { vec![batch.clone()] };
             let res = if array_fmt {
                 let mut w = b.build::<_, arrow_json::writer::JsonArray>(&mut out);
-                w.write(&batch).and_then(|_| w.finish())
+                parts.iter().try_for_each(|p| w.write(p)).and_then(|_| w.finish())
             } else {
                 let mut w = b.build::<_, arrow_json::writer::LineDelimited>(&mut out);
-                w.write(&batch).and_then(|_| w.finish())
+                parts.iter().try_for_each(|p| w.write(p)).and_then(|_| w.finish())
             };
             if res.is_err() {
                 // not a batch the writer accepts: outside the property's domain
@@ -428,7 +539,11 @@ fn run_case(line: &str, sink: &mut Sink, tags: &str) -> String {
             if !ok_serde {
                 oracle.push("serde_json rejects the written text".into());
             }
-            let rb = arrow_json::ReaderBuilder::new(batch.schema()).with_struct_mode(mode).with_flatten(array_fmt).with_batch_size(3);
+            // reader options: `s` strict mode, `p` coerce_primitive, `b` default batch size (1024) instead of 3
+            let mut rb = arrow_json::ReaderBuilder::new(batch.schema()).with_struct_mode(mode).with_flatten(array_fmt).with_strict_mode(t[2].contains('s')).with_coerce_primitive(t[2].contains('p'));
+            if !t[2].contains('b') {
+                rb = rb.with_batch_size(3);
+            }
             match rb.build(Cursor::new(out.clone())) {
                 Ok(r) => match r.collect::<Result<Vec<_>, _>>() {
                     Ok(bs) => {
@@ -436,7 +551,13 @@ fn run_case(line: &str, sink: &mut Sink, tags: &str) -> String {
                             oracle.push(format!("json round trip: {e}"));
                         }
                     }
-                    Err(e) => oracle.push(format!("json round trip: reader error {}", format!("{e:?}").chars().take(160).collect::<String>())),
+                    Err(e) => {
+                        let m = format!("{e:?}");
+                        if m.contains("as Duration(") && t[5].split(';').any(|c| c.contains("dur")) {
+                            finding = " kf:json-duration-text-not-readable finding:duration-parse".into();
+                        }
+                        oracle.push(format!("json round trip: reader error {}", m.chars().take(160).collect::<String>()))
+                    }
                 },
                 Err(e) => oracle.push(format!("json round trip: open {e:?}")),
             }
@@ -447,15 +568,47 @@ fn run_case(line: &str, sink: &mut Sink, tags: &str) -> String {
             let batch = make_batch(t[3], t[5], n);
             let d: u8 = if t[2].contains('t') { b'\t' } else if t[2].contains('s') { b';' } else { b',' };
             let header = t[2].contains('h');
+            // options: `q` quote character `'`; `x` quotes escaped with a backslash instead of doubling; `r` CRLF line
+            // terminator; `f` explicit date/time/timestamp formats; `n` the DEFAULT null handling (empty field, no
+            // regex: only generated for schemas without string columns); `m` two batches through one writer;
+            // `b` default reader batch size
+            let opts = t[2];
+            let quote = if opts.contains('q') { b'\'' } else { b'"' };
             let mut out = Vec::new();
             {
-                let mut w = arrow_csv::WriterBuilder::new().with_header(header).with_delimiter(d).with_null(NULL_SENTINEL.to_string()).build(&mut out);
-                if w.write(&batch).is_err() {
-                    rejected = true;
-                    return format!("rows={n}");
+                let mut wb = arrow_csv::WriterBuilder::new().with_header(header).with_delimiter(d).with_quote(quote);
+                if !opts.contains('n') {
+                    wb = wb.with_null(NULL_SENTINEL.to_string());
+                }
+                if opts.contains('x') {
+                    wb = wb.with_double_quote(false).with_escape(b'\\');
+                }
+                if opts.contains('r') {
+                    wb = wb.with_line_terminator(arrow_csv::writer::Terminator::CRLF);
+                }
+                if opts.contains('f') {
+                    wb = wb.with_date_format("%Y-%m-%d".into()).with_datetime_format("%Y-%m-%dT%H:%M:%S%.3f".into()).with_timestamp_format("%Y-%m-%d %H:%M:%S%.9f".into()).with_timestamp_tz_format("%Y-%m-%dT%H:%M:%S%.9f%:z".into()).with_time_format("%H:%M:%S%.9f".into());
+                }
+                let mut w = wb.build(&mut out);
+                let parts: Vec<RecordBatch> = if opts.contains('m') && n >= 2 { vec![batch.slice(0, n / 2), batch.slice(n / 2, n - n / 2)] } else { vec![batch.clone()] };
+                for p in &parts {
+                    if w.write(p).is_err() {
+                        rejected = true;
+                        return format!("rows={n}");
+                    }
                 }
             }
-            let r = arrow_csv::ReaderBuilder::new(batch.schema()).with_header(header).with_delimiter(d).with_null_regex(never_null()).with_batch_size(4).build(Cursor::new(out.clone()));
+            let mut rb = arrow_csv::ReaderBuilder::new(batch.schema()).with_header(header).with_delimiter(d).with_quote(quote);
+            if !opts.contains('n') {
+                rb = rb.with_null_regex(never_null());
+            }
+            if opts.contains('x') {
+                rb = rb.with_escape(b'\\');
+            }
+            if !opts.contains('b') {
+                rb = rb.with_batch_size(4);
+            }
+            let r = rb.build(Cursor::new(out.clone()));
             match r {
                 Ok(r) => match r.collect::<Result<Vec<_>, _>>() {
                     Ok(bs) => {
@@ -575,6 +728,9 @@ fn gen_text(rng: &mut Rng, max: usize) -> String {
 fn hex_or_empty(b: &[u8], empty: &str) -> String {
     if b.is_empty() { empty.to_string() } else { hex(b) }
 }
+/// doubles on formatting boundaries: 2^52..2^53 (last exactly representable integers), the switch to exponent
+/// notation, powers of ten that are / are not exact, shortest-digit cases
+const F64_BOUNDARY: [f64; 26] = [4503599627370496.0, 4503599627370497.0, 9007199254740991.0, 9007199254740992.0, 9007199254740994.0, 1e15, 1e16, 1e17, 1e21, 1e22, 1e23, 1e-5, 1e-6, 1e-7, 0.1, 0.2, 0.30000000000000004, 123456789012345680.0, 5e-324, 2.2250738585072014e-308, 1.7976931348623157e308, 0.000001, 100000.0, 1e7, 16777216.0, 16777217.0];
 fn gen_flat_value(rng: &mut Rng, ty: &str, json: bool) -> String {
     let i = |rng: &mut Rng, lo: i64, hi: i64| rng.pick_or(&[lo, hi, 0, -1, 1, lo + 1, hi - 1], lo, hi).clamp(lo, hi).to_string();
     match ty {
@@ -595,9 +751,35 @@ fn gen_flat_value(rng: &mut Rng, ty: &str, json: bool) -> String {
             if !f.is_finite() && json { "3f800000".into() } else { format!("{:08x}", if f.is_nan() { 0x7fc0_0000 } else { b }) }
         }
         "f64" => {
-            let b = if rng.chance(1, 3) { *rng.pick(&[0u64, 1 << 63, 1, 0x7fef_ffff_ffff_ffff, 0xffef_ffff_ffff_ffff, 0x0010_0000_0000_0000, 0x3ff0_0000_0000_0000, 0x3fb9_9999_9999_999a, 0x4340_0000_0000_0000, 0x7ff0_0000_0000_0000, 0xfff0_0000_0000_0000, 0x7ff8_0000_0000_0000]) } else { rng.next_u64() };
+            let b = if rng.chance(1, 4) { F64_BOUNDARY[rng.usize(F64_BOUNDARY.len())].to_bits() } else if rng.chance(1, 3) { *rng.pick(&[0u64, 1 << 63, 1, 0x7fef_ffff_ffff_ffff, 0xffef_ffff_ffff_ffff, 0x0010_0000_0000_0000, 0x3ff0_0000_0000_0000, 0x3fb9_9999_9999_999a, 0x4340_0000_0000_0000, 0x7ff0_0000_0000_0000, 0xfff0_0000_0000_0000, 0x7ff8_0000_0000_0000]) } else { rng.next_u64() };
             let f = f64::from_bits(b);
             if !f.is_finite() && json { "3ff0000000000000".into() } else { format!("{:016x}", if f.is_nan() { 0x7ff8_0000_0000_0000 } else { b }) }
+        }
+        "null" => "N".to_string(),
+        "f16" => {
+            let b = if rng.chance(1, 3) { *rng.pick(&[0u16, 0x8000, 1, 0x7bff, 0xfbff, 0x0400, 0x3c00, 0x3555, 0x6400, 0x6800]) } else { rng.next_u64() as u16 };
+            let f = half::f16::from_bits(b);
+            if !f.is_finite() { "3c00".into() } else { format!("{:04x}", b) }
+        }
+        "durs" | "durm" | "duru" | "durn" => i(rng, i64::MIN, i64::MAX),
+        t if t.starts_with("dict") => hex_or_empty(gen_text(rng, 3).as_bytes(), "~"),
+        t if t.starts_with("dec32(") || t.starts_with("dec64(") || t.starts_with("dec256(") => {
+            let p: u32 = t[t.find('(').unwrap() + 1..].split('.').next().unwrap().parse().unwrap();
+            // digit-count boundaries 10^k - 1, 10^k up to the precision, and the two's-complement byte boundaries
+            let k = 1 + rng.below(p as u64) as u32;
+            let pow = |b: u32, e: u32| -> arrow_buffer::i256 { (0..e).fold(arrow_buffer::i256::ONE, |a, _| a.checked_mul(arrow_buffer::i256::from_i128(b as i128)).unwrap()) };
+            let max = pow(10, p).checked_sub(arrow_buffer::i256::ONE).unwrap();
+            let v = match rng.below(8) {
+                0 => max,
+                1 => pow(10, k).checked_sub(arrow_buffer::i256::ONE).unwrap(),
+                2 => pow(10, k - 1),
+                3 => arrow_buffer::i256::ZERO,
+                4 => pow(2, 8 * (1 + rng.below(31) as u32) - 1),
+                5 => arrow_buffer::i256::ONE,
+                _ => pow(10, k - 1).checked_mul(arrow_buffer::i256::from_i128(1 + rng.below(9) as i128)).unwrap().checked_add(arrow_buffer::i256::from_i128(rng.below(7) as i128)).unwrap(),
+            };
+            let v = if v > max { max } else { v };
+            if rng.bool() { v.wrapping_neg().to_string() } else { v.to_string() }
         }
         "utf8" | "lutf8" | "utf8v" => hex_or_empty(gen_text(rng, 6).as_bytes(), "~"),
         "bin" | "lbin" | "binv" => hex_or_empty(&gen_bytes_sized(rng), "~"),
@@ -628,6 +810,14 @@ fn gen_value(rng: &mut Rng, ty: &str, json: bool, nullable: bool) -> String {
     if nullable && rng.chance(1, 5) {
         return "N".into();
     }
+    if let Some(inner) = ty.strip_prefix("fsl2(").and_then(|x| x.strip_suffix(')')) {
+        return format!("L{}", (0..2).map(|_| gen_value(rng, inner, json, true)).collect::<Vec<_>>().join("."));
+    }
+    for pre in ["llist(", "lview("] {
+        if let Some(inner) = ty.strip_prefix(pre).and_then(|x| x.strip_suffix(')')) {
+            return gen_value(rng, &format!("list({inner})"), json, false);
+        }
+    }
     if let Some(inner) = ty.strip_prefix("list(").and_then(|x| x.strip_suffix(')')) {
         let n = count_class(rng);
         return format!("L{}", (0..n).map(|_| gen_value(rng, inner, json, true)).collect::<Vec<_>>().join("."));
@@ -642,19 +832,37 @@ fn gen_value(rng: &mut Rng, ty: &str, json: bool, nullable: bool) -> String {
     gen_flat_value(rng, ty, json)
 }
 /// JSON-only column types (hex-encoded binary in every layout)
-const JSON_ONLY: [&str; 9] = ["bin", "lbin", "binv", "fsb1", "fsb33", "fsb64", "fsb65", "fsb130", "utf8v"];
+const JSON_ONLY: [&str; 13] = ["bin", "lbin", "binv", "fsb1", "fsb33", "fsb64", "fsb65", "fsb130", "utf8v", "durs", "durm", "duru", "durn"];
+/// types of both text formats added by the coverage audit
+const MORE: [&str; 8] = ["f16", "dec32(9.2)", "dec32(4.0)", "dec64(18.3)", "dec64(10.0)", "dec256(76.10)", "dec256(40.0)", "null"];
+/// CSV only: Dictionary(key, Utf8) for every key type the reader has an arm for
+const CSV_DICT: [&str; 8] = ["dicti8", "dicti16", "dicti32", "dicti64", "dictu8", "dictu16", "dictu32", "dictu64"];
 const FLAT: [&str; 30] = ["bool", "i8", "i16", "i32", "i64", "u8", "u16", "u32", "u64", "f32", "f64", "utf8", "lutf8", "d32", "d64", "t32s", "t32m", "t64u", "t64n", "tss", "tsm", "tsu", "tsn", "tzs", "tzm", "tzu", "tzn", "dec(5.2)", "dec(38.10)", "dec(18.0)"];
 fn gen_rt(rng: &mut Rng, json: bool) -> (String, String) {
     let ncols = 1 + rng.usize(4);
-    let n = *rng.pick(&[0usize, 1, 2, 3, 7]);
+    // row counts: small, or around 64 and around the readers' default batch size 1024 (narrow schemas only)
+    let big_n = rng.chance(1, 40);
+    let n = if big_n { *rng.pick(&[63usize, 64, 65, 1023, 1024, 1025]) } else { *rng.pick(&[0usize, 1, 2, 3, 7]) };
+    let ncols = if big_n { 1 + rng.usize(2) } else { ncols };
+    if big_n {
+        note_size(n);
+    }
     let mut tys: Vec<String> = vec![];
     for _ in 0..ncols {
-        let mut base = if json && rng.chance(1, 4) { rng.pick(&JSON_ONLY).to_string() } else if rng.chance(1, 5) { (*rng.pick(&["utf8", "utf8", "lutf8", "utf8v"])).to_string() } else { rng.pick(&FLAT).to_string() };
+        let mut base = if rng.chance(1, 6) { rng.pick(&MORE).to_string() } else if !json && rng.chance(1, 8) { rng.pick(&CSV_DICT).to_string() } else if json && rng.chance(1, 4) { rng.pick(&JSON_ONLY).to_string() } else if rng.chance(1, 5) { (*rng.pick(&["utf8", "utf8", "lutf8", "utf8v"])).to_string() } else { rng.pick(&FLAT).to_string() };
         if !json && base == "lutf8" {
             base = "utf8".into(); // the CSV reader has no LargeUtf8 decoder
         }
-        let t = if json {
-            match rng.below(8) {
+        if big_n {
+            base = (*rng.pick(&["i32", "i64", "bool", "f64", "d32", "dec(5.2)", "tsm", "u8"])).to_string();
+        }
+        let t = if big_n {
+            base
+        } else if json {
+            match rng.below(11) {
+                8 => format!("llist({base})"),
+                9 => format!("lview({base})"),
+                10 => format!("fsl2({base})"),
                 0 => format!("list({base})"),
                 1 => format!("st({}/{})", base, rng.pick(&FLAT)),
                 2 => format!("map({base})"),
@@ -670,10 +878,20 @@ fn gen_rt(rng: &mut Rng, json: bool) -> (String, String) {
     let kinds: String = tys.iter().map(|t| format!(" ty:{}", t.split('(').next().unwrap())).collect::<Vec<_>>().join("");
     if json {
         // explicit nulls are required whenever a null inside a struct/map/list-of-struct would otherwise be dropped
-        let opts = format!("{}{}{}", "e", if rng.chance(1, 4) { "l" } else { "" }, if rng.chance(1, 3) { "a" } else { "" });
+        // explicit nulls may be switched off only when no map entry could be dropped (property text)
+        let has_map = tys.iter().any(|t| t.contains("map("));
+        let opts = format!("{}{}{}{}{}{}{}", if has_map || rng.chance(2, 3) { "e" } else { "E" }, if rng.chance(1, 4) { "l" } else { "" }, if rng.chance(1, 3) { "a" } else { "" }, if rng.chance(1, 3) { "m" } else { "" }, if rng.chance(1, 3) { "s" } else { "" }, if rng.chance(1, 4) { "p" } else { "" }, if big_n || rng.chance(1, 5) { "b" } else { "" });
         (format!("C17 jsonrt {} - {} {}", opts, n, cols.join(";")), format!("op:jsonrt opt:{}{} {}", opts, kinds, if n > 0 { "nt" } else { "" }))
     } else {
-        let opts = format!("c{}{}", if rng.bool() { "h" } else { "" }, *rng.pick(&["", "", "t", "s"]));
+        let stringy = tys.iter().any(|t| t.contains("utf8") || t.starts_with("dict") || t == "null");
+        let opts = format!("c{}{}{}{}{}{}{}{}{}", if rng.bool() { "h" } else { "" }, *rng.pick(&["", "", "t", "s"]), if rng.chance(1, 4) { "q" } else { "" }, if rng.chance(1, 5) { "x" } else { "" }, if rng.chance(1, 5) { "r" } else { "" }, if rng.chance(1, 4) { "f" } else { "" }, if !stringy && rng.chance(1, 3) { "n" } else { "" }, if rng.chance(1, 3) { "m" } else { "" }, if big_n || rng.chance(1, 5) { "b" } else { "" });
+        // with backslash-escaped quotes (`x`) the csv writer does not escape a literal backslash, so the text is
+        // ambiguous whenever a value contains one: outside the property's domain
+        let has_backslash = cols.iter().any(|c| {
+            let (ty, vals) = c.split_once(':').unwrap();
+            (ty.contains("utf8") || ty.starts_with("dict")) && vals.split(',').any(|v| v != "N" && v != "~" && unhex(v).contains(&b'\\'))
+        });
+        let opts = if has_backslash { opts.replace('x', "") } else { opts };
         (format!("C17 csvrt {} - {} {}", opts, n, cols.join(";")), format!("op:csvrt opt:{}{} {}", opts, kinds, if n > 0 { "nt" } else { "" }))
     }
 }
@@ -691,6 +909,13 @@ fn gen_case_inner(rng: &mut Rng) -> (String, String) {
             let k = 1 + rng.usize(4);
             let nrec = 1 + rng.usize(4);
             let recs: Vec<Vec<Vec<u8>>> = (0..nrec).map(|_| (0..k).map(|_| gen_text(rng, 5).into_bytes()).collect()).collect();
+            if rng.chance(1, 4) {
+                let q = *rng.pick(&[b'\'', b'"', b'|', b'#', b' ']);
+                if q != d {
+                    let special = recs.iter().flatten().any(|f| f.iter().any(|b| *b == d || *b == q || *b == b'\n' || *b == b'\r'));
+                    return (format!("C17 csvq {} {} {}", d, q, show_records(&recs)), format!("op:csvq quote:{} {}", q, if special { "quoted nt" } else { "plain" }));
+                }
+            }
             let special = recs.iter().flatten().any(|f| f.iter().any(|b| *b == d || *b == b'"' || *b == b'\n' || *b == b'\r'));
             (format!("C17 csv {} {}", d, show_records(&recs)), format!("op:csv {} {}", if special { "quoted" } else { "plain" }, if special { "nt" } else { "" }))
         }
@@ -797,6 +1022,51 @@ fn gen_case_inner(rng: &mut Rng) -> (String, String) {
     }
 }
 
+/// a deterministic block of boundary cases emitted at the start of every run
+fn fixed_block() -> Vec<String> {
+    let mut out = vec![];
+    // binary values around every multiple of the 64-byte scratch buffer, and the reader on upper/lower/odd input
+    for n in [0usize, 1, 2, 63, 64, 65, 66, 127, 128, 129, 130, 191, 192, 193, 255, 256, 257, 4095, 4096, 4097] {
+        let b: Vec<u8> = (0..n).map(|i| (i * 7 + 3) as u8).collect();
+        out.push(format!("C17 jsonbin {}", hex(&b)));
+        out.push(format!("C17 jsonunbin {}", hex(hex(&b).to_uppercase().replace('-', "").as_bytes())));
+    }
+    out.push(format!("C17 jsonunbin {}", hex("0".repeat(129).as_bytes())));
+    out.push(format!("C17 jsonunbin {}", hex(format!("{}g0", "ab".repeat(64)).as_bytes())));
+    // every byte that must be escaped in JSON, alone and embedded; DEL; 2/3/4-byte characters
+    for c in (0u32..=0x20).chain([0x22, 0x2f, 0x5c, 0x7f, 0x80, 0x7ff, 0x800, 0xffff, 0x10000, 0x1ffff, 0x20000, 0x10ffff]) {
+        let ch = char::from_u32(c).unwrap();
+        out.push(format!("C17 jsonstr {}", hex(format!("a{ch}{ch}b").as_bytes())));
+        let mut u = [0u16; 2];
+        let esc: String = ch.encode_utf16(&mut u).iter().map(|x| format!("\\u{:04X}", x)).collect();
+        out.push(format!("C17 jsonunesc {}", hex(format!("\"{esc}x{}\"", esc.to_lowercase()).as_bytes())));
+    }
+    // CSV: each special byte at the start, in the middle, at the end and alone; empty / blank fields
+    for sp in [",", "\"", "\n", "\r", "\r\n", " ", "\"\"", ";", "\t", "'"] {
+        let f: Vec<String> = vec![format!("{sp}ab"), format!("a{sp}b"), format!("ab{sp}"), sp.to_string()];
+        let rec = f.iter().map(|x| hex(x.as_bytes())).collect::<Vec<_>>().join(",");
+        out.push(format!("C17 csv 44 {rec}|-,-,-,-|{rec}"));
+        out.push(format!("C17 csvq 59 39 {rec}"));
+    }
+    out.push("C17 csv 44 -".into());
+    out.push("C17 csv 44 -|-|61".into());
+    out.push(format!("C17 csvsplit 44 2 {}", hex(b"a,b\r\n\r\n\"c\"\"d\",\"\"\n\n\ne,f")));
+    out.push(format!("C17 csvsplit 44 2 {}", hex(b"a,\"b\"x\r\"\"y,z")));
+    // numeric boundaries through both text formats: digit-count limits, float formatting switches
+    let ints = "i64:0,-1,9,10,99,100,999999999,1000000000,9999999999,9223372036854775807,-9223372036854775808,N;u64:0,9,10,18446744073709551615,9999999999999999999,10000000000000000000,1,2,3,4,5,N;i8:-128,127,0,-1,1,99,100,-99,-100,9,10,N;u32:4294967295,0,1,9,10,99,100,999999999,1000000000,4294967294,12,N";
+    let floats = format!("f64:{};f32:{}", F64_BOUNDARY.iter().map(|x| format!("{:016x}", x.to_bits())).collect::<Vec<_>>().join(","), F64_BOUNDARY.iter().map(|x| { let f = *x as f32; format!("{:08x}", if f.is_finite() { f.to_bits() } else { 0x7f7f_ffff }) }).collect::<Vec<_>>().join(","));
+    let decs = "dec(5.2):99999,-99999,0,1,-1,9,10,99,100,999,1000,9999;dec32(9.2):999999999,-999999999,0,1,-1,9,10,99,100,128,-129,32768;dec64(18.3):999999999999999999,-999999999999999999,0,1,-1,999,1000,1001,-1000,128,-129,2147483648;dec256(76.10):9999999999999999999999999999999999999999999999999999999999999999999999999999,-9999999999999999999999999999999999999999999999999999999999999999999999999999,0,1,-1,9999999999,10000000000,10000000001,-10000000000,170141183460469231731687303715884105728,-170141183460469231731687303715884105729,5";
+    for (op, o) in [("jsonrt", "e"), ("jsonrt", "eam"), ("jsonrt", "Els"), ("csvrt", "c"), ("csvrt", "chqm"), ("csvrt", "ctrf")] {
+        out.push(format!("C17 {op} {o} - 12 {ints}"));
+        out.push(format!("C17 {op} {o} - {} {floats}", F64_BOUNDARY.len()));
+        out.push(format!("C17 {op} {o} - 12 {decs}"));
+    }
+    // default null handling of CSV (empty field <-> null) on a schema without strings
+    out.push("C17 csvrt cn - 3 i32:1,N,3;f64:N,3ff0000000000000,N;bool:1,0,N".into());
+    out.push("C17 csvrt chnm - 3 d32:1,N,3;tss:N,1,N;dec(5.2):N,N,N".into());
+    out
+}
+
 fn main() {
     let args = parse_args();
     if std::env::var("VERIF_LOUD").is_err() {
@@ -809,6 +1079,10 @@ fn main() {
             sink.case(line, a, "replay");
         }
     } else {
+        for line in fixed_block() {
+            let a = run_case(&line, &mut sink, "fixed nt");
+            sink.case(line, a, "fixed nt");
+        }
         let mut rng = Rng::new(args.seed ^ 0xC17);
         let n = n_cases(&args, 6000, 150000);
         for _ in 0..n {
